@@ -19,7 +19,7 @@ def jobs(tier):
         out.append(dict(name='liveoil_nx%d' % nx, src='h_pvt2d.cpp', defs={'HNX': nx}, entry='h_liveoil', tus=T2, fp='real', loopmax=2000, maxsteps=8000000, timeout=900, bounds='%d Rs nodes x 2 pressures' % nx))
         out.append(dict(name='wetgas_nx%d' % nx, src='h_pvt2d.cpp', defs={'HNX': nx}, entry='h_wetgas', tus=T2, fp='real', loopmax=2000, maxsteps=8000000, timeout=900, bounds='%d pressure nodes x 2 Rv' % nx))
     for fam in ('liveoil', 'wetgas'):
-        out.append(dict(name='psat_%s_nx3' % fam, src='h_pvt2d.cpp', defs={'HNX': 3, 'PSFIXED': 1}, entry='h_%s_psat' % fam, tus=T2, fp='real', loopmax=2000, maxsteps=8000000, timeout=900, bounds='3 nodes, pressure nodes at fixed positions 1, 2.5, 5, Rs/Rv values symbolic'))
+        out.append(dict(name='psat_%s_nx3' % fam, src='h_pvt2d.cpp', defs=({'HNX': 3, 'PSFIXED': 1} if tier == 'quick' else {'HNX': 3, 'PSFIXED': 1, 'PSAT_SCALAR': 1}), entry='h_%s_psat' % fam, tus=T2, fp='real', loopmax=2000, maxsteps=8000000, timeout=900, bounds='3 nodes, pressure nodes at fixed positions 1, 2.5, 5, Rs/Rv values symbolic'))
     if tier != 'quick':
         out.append(dict(name='psat_nx2', src='h_pvt2d.cpp', defs={'HNX': 2}, entry='h_liveoil_psat,h_wetgas_psat', tus=T2, fp='real', loopmax=2000, maxsteps=8000000, timeout=900, bounds='2 nodes, all symbolic'))
     return out
